@@ -41,7 +41,10 @@ FixNames == {"chunk_readline",     \* chunked.py: readline after a chunk / in th
              "win_names",          \* path.py safe_filename windows: names ending in "." or " "
              "sitemap_gzip",       \* scraper/sitemap.py: except OSError, EOFError, zlib.error
              "pasv_range",         \* ftp/util.py parse_address: numbers above 255 are a ValueError
-             "deflate_fallback"}   \* decompression.py: raw-deflate fallback replays everything fed so far (C19 repair)
+             "deflate_fallback",   \* decompression.py: raw-deflate fallback replays everything fed so far (C19 repair)
+             "perm_listing",       \* processor/ftp.py: except REMOTE_ERRORS around _apply_unix_permissions (--preserve-permissions)
+             "symlink_create",     \* processor/ftp.py _make_symlink: except (OSError, ValueError) around os.symlink
+             "continue_refused"}   \* writer.py: a refused --continue is a ProtocolError; the handlers tolerate a response without body
 ASSUME Fixes \subseteq FixNames
 Fixed(n) == n \in Fixes
 
@@ -97,7 +100,8 @@ Layer(f) ==
               "ObsFtpListing"} -> "session"
     [] f \in {"WebRedirect", "RobotsFetch", "RobotsReadContent", "ObsRobots"} -> "web"
     [] f \in {"HtmlScrape", "TextScrape", "SitemapScrape", "UrljoinSafe", "ParseUrlOrLog", "ObsScrapeInfo"} -> "scraper"
-    [] f \in {"FetchOne", "FetchOneNoBody", "ProcessRobots", "FtpFetch", "FtpParentStart", "FtpParentCatch"} -> "processor"
+    [] f \in {"FetchOne", "FetchOneNoBody", "ProcessRobots", "FtpFetch", "FtpFetchNoBody", "FtpParentStart",
+              "FtpParentCatch", "FtpPermCatch", "SymlinkCatch"} -> "processor"
     [] f = "ProcessTask" -> "task"
     [] f = "Worker" -> "worker"
     [] f = "PipelineResult" -> "pipeline"
@@ -160,9 +164,16 @@ Apply(f, k) ==
     [] f = "FtpListingParse" ->                 \* ftp/client.py:350: except (ListingError, ValueError) -> ProtocolError
          IF Is(k, "ListingError") \/ Is(k, "ValueError") THEN Raise("ProtocolError") ELSE Raise(k)
     [] f \in {"FetchOne", "ProcessRobots", "FtpFetch", "FtpParentCatch"} -> ProcessorCatch(k)
-    [] f = "FetchOneNoBody" ->                  \* web.py:318 "if response: response.body.close()" while response.body is
-                                                \* still None (the error was born between Session.start and the Body)
-         IF IsAny(k, REMOTE) /\ ~(SSLVerify /\ Is(k, "SSLVerificationError")) THEN Raise("AttributeError") ELSE Raise(k)
+    [] f \in {"FetchOneNoBody", "FtpFetchNoBody"} ->
+                                                \* web.py:318, ftp.py:324 "if response: response.body.close()" while
+                                                \* response.body is still None (the error was born between Session.start and
+                                                \* the Body); repaired: "if response and response.body"
+         IF Fixed("continue_refused") THEN ProcessorCatch(k)
+         ELSE IF IsAny(k, REMOTE) /\ ~(SSLVerify /\ Is(k, "SSLVerificationError")) THEN Raise("AttributeError") ELSE Raise(k)
+    [] f = "FtpPermCatch" ->                    \* ftp.py _fetch else-branch (repaired tree): the mode bits are optional
+         IF IsAny(k, REMOTE) THEN Absorb ELSE Raise(k)
+    [] f = "SymlinkCatch" ->                    \* ftp.py _make_symlink (repaired tree): a link that cannot be made is skipped
+         IF Is(k, "OSError") \/ Is(k, "ValueError") THEN Absorb ELSE Raise(k)
     [] f \in {"ProcessTask", "Worker", "PipelineResult"} -> Raise(k)   \* no except clause on the way (download.py:492,
                                                 \* pipeline.py:119,135; task.result() at pipeline.py:236 re-raises)
     [] f = "AppRun" ->                          \* application/app.py:157-180: except Exception
@@ -185,6 +196,8 @@ RobDlTail     == <<"CloseOnError", "DownloadWaitFor", "ObsHttpDownload", "Robots
 ChunkTail    == IF Fixed("chunk_readline") THEN <<"ChunkTailReadline">> ELSE <<>>
 FtpReplyTail == IF Fixed("ftp_reply_readline") THEN <<"FtpReplyReadline">> ELSE <<>>
 ParentTail   == IF Fixed("ftp_parent") THEN <<"FtpParentCatch">> ELSE <<>>
+PermTail     == IF Fixed("perm_listing") THEN <<"FtpPermCatch">> ELSE <<>>
+SymlinkTail  == IF Fixed("symlink_create") THEN <<"SymlinkCatch">> ELSE <<>>
 
 Inner(s) ==
   CASE \* ---------------- HTTP, page fetch (processor/web.py _fetch_one)
@@ -257,6 +270,24 @@ Inner(s) ==
     [] s = "fp_data_read"          -> <<"NetOp", "CloseOnError", "FtpDownloadWaitFor", "ObsFtpDownload">> \o ParentTail
     [] s = "fp_end_code"           -> <<"FtpDownloadWaitFor", "ObsFtpDownload">> \o ParentTail
     [] s = "fp_listing_parse"      -> <<"FtpListingParse", "ObsFtpListing">> \o ParentTail
+       \* ---------------- FTP, --preserve-permissions: the parent directory is listed AFTER the file was saved
+       \*                  (ftp.py _fetch "else:" branch -> _apply_unix_permissions -> _fetch_parent_path): outside the try
+    [] s = "pp_connect"            -> <<"NetOp", "ObsFtpStart", "FtpParentStart">> \o PermTail
+    [] s = "pp_reply_readline"     -> <<"NetOp">> \o FtpReplyTail \o <<"CloseOnError", "ObsFtpStart", "FtpParentStart">> \o PermTail
+    [] s = "pp_reply_parse"        -> <<"CloseOnError", "ObsFtpStart", "FtpParentStart">> \o PermTail
+    [] s = "pp_reply_code"         -> <<"ObsFtpStart", "FtpParentStart">> \o PermTail
+    [] s = "pp_pasv_parse"         -> <<"FtpPasv", "ObsFtpStart", "FtpParentStart">> \o PermTail
+    [] s = "pp_data_connect"       -> <<"NetOp", "ObsFtpStart", "FtpParentStart">> \o PermTail
+    [] s = "pp_data_read"          -> <<"NetOp", "CloseOnError", "FtpDownloadWaitFor", "ObsFtpDownload">> \o PermTail
+    [] s = "pp_end_code"           -> <<"FtpDownloadWaitFor", "ObsFtpDownload">> \o PermTail
+    [] s = "pp_listing_parse"      -> <<"FtpListingParse", "ObsFtpListing">> \o PermTail
+       \* ---------------- FTP, --retr-symlinks=off: os.symlink with names taken from the listing (ftp.py _make_symlink,
+       \*                  reached from _handle_response in the "else:" branch)
+    [] s = "f_symlink"             -> SymlinkTail
+       \* ---------------- --continue refused by the server (writer.py _raise_cannot_continue_error, reached from
+       \*                  process_response INSIDE the try of _fetch_one / _fetch, before the response has a body)
+    [] s = "h_writer_continue"     -> <<"FetchOneNoBody">>
+    [] s = "f_writer_continue"     -> <<"FtpFetchNoBody">>
 
 Sites == {"h_connect", "h_hdr_readline", "h_status_parse", "h_fields_parse", "h_redirect_load", "h_redirect_next",
           "h_cookie_extract", "h_writer_process_response", "h_body_read", "h_content_length_parse",
@@ -270,7 +301,9 @@ Sites == {"h_connect", "h_hdr_readline", "h_status_parse", "h_fields_parse", "h_
           "f_size_parse", "f_pasv_parse", "f_data_connect", "f_mlsd_code", "f_data_read", "f_end_readline",
           "f_end_code", "f_listing_parse", "f_add_links",
           "fp_connect", "fp_reply_readline", "fp_reply_parse", "fp_reply_code", "fp_login_code", "fp_pasv_parse",
-          "fp_data_connect", "fp_data_read", "fp_end_code", "fp_listing_parse"}
+          "fp_data_connect", "fp_data_read", "fp_end_code", "fp_listing_parse",
+          "pp_connect", "pp_reply_readline", "pp_reply_parse", "pp_reply_code", "pp_pasv_parse", "pp_data_connect",
+          "pp_data_read", "pp_end_code", "pp_listing_parse", "f_symlink", "h_writer_continue", "f_writer_continue"}
 
 Route(s) == Inner(s) \o UpTail
 
@@ -309,18 +342,19 @@ PredictAt(s, k, p) == KindAt(s, k, 1, p)
 NetKinds == {"OSError", "OSConnRefused", "TimeoutError", "NetworkError", "NetworkTimedOut", "ConnectionRefused"}
 
 ProvokableAt(s) ==
-  CASE s \in {"h_connect", "r_connect", "f_connect", "fp_connect"}
+  CASE s \in {"h_connect", "r_connect", "f_connect", "fp_connect", "pp_connect"}
             -> {"OSError", "OSConnRefused", "TimeoutError", "SSLCertError"}
-    [] s \in {"f_data_connect", "fp_data_connect"}     \* the address comes from the server's PASV reply: a port number
+    [] s \in {"f_data_connect", "fp_data_connect", "pp_data_connect"}     \* the address comes from the server's PASV reply: a port number
                                                      \* above 65535 makes socket.connect raise OverflowError
             -> {"OSError", "OSConnRefused", "TimeoutError", "SSLCertError"} \cup (IF Fixed("pasv_range") THEN {} ELSE {"OverflowError"})
     [] s \in {"h_hdr_readline", "r_hdr_readline", "h_chunk_hdr_readline", "h_chunk_nl_readline",
-              "h_trailer_readline", "r_chunk_nl_readline", "f_reply_readline", "f_end_readline", "fp_reply_readline"}
+              "h_trailer_readline", "r_chunk_nl_readline", "f_reply_readline", "f_end_readline", "fp_reply_readline",
+              "pp_reply_readline"}
             -> {"ValueError", "OSError", "NetworkError", "NetworkTimedOut"}     \* StreamReader.readline: limit overrun
-    [] s \in {"h_body_read", "r_body_read", "h_chunk_body_read", "f_data_read", "fp_data_read"}
+    [] s \in {"h_body_read", "r_body_read", "h_chunk_body_read", "f_data_read", "fp_data_read", "pp_data_read"}
             -> {"OSError", "NetworkError", "NetworkTimedOut"}
     [] s \in {"h_status_parse", "r_status_parse"} -> {"ProtocolError"}
-    [] s \in {"h_content_length_parse", "h_chunk_size_parse", "f_size_parse", "f_pasv_parse", "fp_pasv_parse"}
+    [] s \in {"h_content_length_parse", "h_chunk_size_parse", "f_size_parse", "f_pasv_parse", "fp_pasv_parse", "pp_pasv_parse"}
             -> {"ValueError"}
     [] s \in {"h_decompress", "h_flush", "r_decompress", "r_flush"} -> {"ZlibError"}
     [] s \in {"h_redirect_next", "r_redirect_next"} -> {"ValueError", "ProtocolError"}
@@ -339,11 +373,15 @@ ProvokableAt(s) ==
     [] s = "h_scrape_text" -> {"UnicodeError"}
     [] s = "h_scrape_sitemap" -> {"ValueError", "UnicodeError", "EOFError", "BadGzipFile", "ZlibError"}   \* document/sitemap.py:66 gzip
     [] s \in {"h_urljoin", "h_child_url_parse"} -> {"ValueError"}
-    [] s \in {"f_reply_parse", "fp_reply_parse"} ->             \* ftp/request.py:84 assert
+    [] s \in {"f_reply_parse", "fp_reply_parse", "pp_reply_parse"} ->             \* ftp/request.py:84 assert
             {"ProtocolError"} \cup (IF Fixed("ftp_two_finals") THEN {} ELSE {"AssertionError"})
-    [] s \in {"f_reply_code", "f_end_code", "f_mlsd_code", "fp_end_code", "fp_reply_code"} -> {"FTPServerError"}
+    [] s \in {"f_reply_code", "f_end_code", "f_mlsd_code", "fp_end_code", "fp_reply_code", "pp_end_code", "pp_reply_code"}
+            -> {"FTPServerError"}
     [] s \in {"f_login_code", "fp_login_code", "f_size_code"} -> {"FTPServerError"}
-    [] s \in {"f_listing_parse", "fp_listing_parse"} ->         \* ls/listing.py:88 fields[1]
+    [] s = "f_symlink" -> {"OSError", "ValueError"}              \* os.symlink: name exists / no such directory / NUL in the name
+    [] s \in {"h_writer_continue", "f_writer_continue"} ->       \* 200 to a Range request; REST refused
+            IF Fixed("continue_refused") THEN {"ProtocolError"} ELSE {"OSError"}
+    [] s \in {"f_listing_parse", "fp_listing_parse", "pp_listing_parse"} ->         \* ls/listing.py:88 fields[1]
             {"ListingError", "ValueError"} \cup (IF Fixed("msdos_short") THEN {} ELSE {"IndexError"})
     [] OTHER -> {}
 
@@ -372,6 +410,12 @@ ParentListing ==   \* finding 21: everything that leaves the parent-directory li
       <<"fp_login_code", "FTPServerError">>, <<"fp_end_code", "FTPServerError">>}
 \cup {<<"fp_listing_parse", k>> : k \in {"ListingError", "ValueError"}}
 
+PermSites == {"pp_connect", "pp_reply_readline", "pp_reply_parse", "pp_reply_code", "pp_pasv_parse", "pp_data_connect",
+              "pp_data_read", "pp_end_code", "pp_listing_parse"}
+\* everything remote input can provoke in the listing made for --preserve-permissions leaves it, except a refusing
+\* reply to the listing command itself (FtpParentStart)
+PermListing == {p \in Provokable : p[1] \in PermSites} \ {<<"pp_reply_code", "FTPServerError">>}
+
 KnownSuspects ==
      Unless("chunk_readline", {<<"h_chunk_nl_readline", "ValueError">>, <<"h_trailer_readline", "ValueError">>,
                                <<"r_chunk_nl_readline", "ValueError">>})       \* oversize line after a chunk / in the trailer
@@ -387,6 +431,14 @@ KnownSuspects ==
 \cup Unless("sitemap_gzip", {<<"h_scrape_sitemap", k>> : k \in {"EOFError", "BadGzipFile", "ZlibError"}})      \* corrupt gzip sitemap
 \cup Unless("pasv_range", {<<"f_data_connect", "OverflowError">>, <<"fp_data_connect", "OverflowError">>})   \* PASV port > 65535
 \cup Unless("ftp_parent", ParentListing)
+\cup (IF Fixed("perm_listing")
+      THEN Unless("ftp_reply_readline", {<<"pp_reply_readline", "ValueError">>})
+           \cup Unless("ftp_two_finals", {<<"pp_reply_parse", "AssertionError">>})
+           \cup Unless("msdos_short", {<<"pp_listing_parse", "IndexError">>})
+           \cup Unless("pasv_range", {<<"pp_data_connect", "OverflowError">>})
+      ELSE PermListing)
+\cup Unless("symlink_create", {<<"f_symlink", "OSError">>, <<"f_symlink", "ValueError">>})
+\cup Unless("continue_refused", {<<"h_writer_continue", "OSError">>, <<"f_writer_continue", "OSError">>})
 
 -----------------------------------------------------------------------------
 (* ---- step semantics: one action per layer ---- *)
